@@ -2362,7 +2362,8 @@ def check_C17(ctx):
     ctx.co["co_uci_sync"] = len(ops)
     for lb, o, r in zip(raw, ops, res):
         ctx.case(o)
-        ctx.bump("sync:" + (lb.split(b" ")[0].decode("latin-1")[:10] if lb.strip() else "blank"))
+        w0 = lb.split(b" ")[0].decode("latin-1")[:10] if lb.strip() else "blank"
+        ctx.bump("sync:" + (w0 if re.fullmatch(r"[a-z]{1,10}", w0) else "other_bytes"))
         if canon(r) == "panic":
             # replay alone in a fresh process to make sure it is the line, with its own minimal context
             ctxlines = minimal_context(lb)
